@@ -162,6 +162,14 @@ class C10(Property):
         return fails or None
 
     def known(self, case, f, ctx):
+        from ..known import open_ids
+        d = f.detail
+        # consequence of C02-F6 / C13-F3 that differs between builds: positions inside an f-string are short by one byte per
+        # CRLF in front of them; the all-nodes-with-ranges build has ranges on more nodes (arguments, keyword, ...), so only there
+        # one of them may end inside a multi-byte character and make the locator's slice panic
+        if 'C10-F1' in open_ids('C10') and f.signature == 'locate_panics_in_some_builds_only' and d.get('which') == {'A': True, 'B': False, 'C': False, 'D': False} \
+                and '\r\n' in d.get('text', '') and re.search(r'''[fF][rR]?['"]|[rR][fF]['"]''', d.get('text', '')) and not d.get('text', '').isascii():
+            return 'C10-F1'
         return None
 
 
